@@ -84,4 +84,84 @@ impl ImpactMarket {
                 && accrued(duration_in_secs as int, self.params.unwrap().distribute_factor@) <= umax()) ==> r.is_ok(),
 //@body
 }
+
+// ---------------------------------------------------------------------------------------------
+// the action: DistributePositionImpact::execute and PositionImpactMarketMutExt::apply_delta_to_position_impact_pool
+// ---------------------------------------------------------------------------------------------
+/// the position impact pool (`Self::Pool`): two amounts; only the long slot is used by the impact pool
+#[derive(Clone, Copy)]
+pub struct PIPool { pub long: N, pub short: N }
+impl PIPool {
+    /// ASSUMED trait contract of `Pool::apply_delta_to_long_amount` (required method; store-side pool: C15)
+    #[verifier::external_body]
+    pub fn apply_delta_to_long_amount(&mut self, delta: &S) -> (r: Result<(), E>)
+        ensures r.is_ok() ==> final(self).long@ == old(self).long@ + delta@ && final(self).short == old(self).short,
+                r.is_err() ==> *final(self) == *old(self)
+    { unimplemented!() }
+}
+/// Carrier for `M: PositionImpactMarketMut`: the pool, the distribution parameters and the distribution clock (a ghost log of
+/// the durations it handed out: `just_passed_in_seconds_*` returns the seconds since the last call and restarts the clock)
+pub struct AMarket { pub pool: Option<PIPool>, pub params: Option<PositionImpactDistributionParams>, pub ticks: Ghost<Seq<u64>> }
+pub open spec fn im_of(m: AMarket) -> ImpactMarket {
+    ImpactMarket { pool_amount: if m.pool.is_some() { Some(m.pool.unwrap().long) } else { None }, params: m.params }
+}
+impl AMarket {
+    pub fn position_impact_pool_mut(&mut self) -> (r: Result<&mut PIPool, E>)
+        ensures r.is_ok() == old(self).pool.is_some(),
+            r.is_ok() ==> *r.unwrap() == old(self).pool.unwrap() && *final(self) == (AMarket { pool: Some(*final(r.unwrap())), ..*old(self) }),
+            r.is_err() ==> *final(self) == *old(self),
+    { match &mut self.pool { Some(x) => Ok(x), None => Err(E::Other) } }
+    /// ASSUMED (clock: C12 / C14 store side): hands out the elapsed seconds and restarts the clock
+    #[verifier::external_body]
+    pub fn just_passed_in_seconds_for_position_impact_distribution(&mut self) -> (r: Result<u64, E>)
+        ensures r.is_ok() ==> *final(self) == (AMarket { ticks: Ghost(old(self).ticks@.push(r.unwrap())), ..*old(self) }),
+                r.is_err() ==> *final(self) == *old(self)
+    { unimplemented!() }
+    /// the unit above, on the read-only view of this carrier
+    pub fn pending_position_impact_pool_distribution_amount(&self, duration_in_secs: u64) -> (r: Result<(N, N), E>)
+        ensures
+            r.is_ok() ==> self.pool.is_some() && self.params.is_some(),
+            r.is_ok() ==> r.unwrap().0@ == distributed_spec(self.pool.unwrap().long@, self.params.unwrap().min_position_impact_pool_amount@,
+                                                         self.params.unwrap().distribute_factor@, duration_in_secs as int),
+            r.is_ok() ==> r.unwrap().1@ == self.pool.unwrap().long@ - r.unwrap().0@,
+    {
+        let im = ImpactMarket { pool_amount: match self.pool { Some(p) => Some(p.long), None => None }, params: self.params };
+        im.pending_position_impact_pool_distribution_amount(duration_in_secs)
+    }
+
+//@unit C14.PositionImpactMarketMutExt.apply_delta_to_position_impact_pool
+//@ file crates/model/src/market/position_impact.rs
+//@ within pub trait PositionImpactMarketMutExt<const DECIMALS: u8>:
+//@ fn apply_delta_to_position_impact_pool
+//@ sig fn apply_delta_to_position_impact_pool(&mut self, delta: &Self::Signed) -> crate::Result<()>
+    pub fn apply_delta_to_position_impact_pool(&mut self, delta: &S) -> (r: Result<(), E>)
+        ensures
+            r.is_ok() ==> old(self).pool.is_some() && *final(self) == (AMarket { pool: Some(PIPool { long: final(self).pool.unwrap().long, ..old(self).pool.unwrap() }), ..*old(self) })
+                && final(self).pool.unwrap().long@ == old(self).pool.unwrap().long@ + delta@,
+            r.is_err() ==> *final(self) == *old(self),
+//@body
+}
+
+//@struct crates/model/src/action/distribute_position_impact.rs :: pub struct DistributePositionImpactReport<T> :: duration_in_seconds, distribution_amount, next_position_impact_pool_amount
+pub struct DistributePositionImpactReport { pub duration_in_seconds: u64, pub distribution_amount: N, pub next_position_impact_pool_amount: N }
+pub struct DistributePositionImpact { pub market: AMarket }
+impl DistributePositionImpact {
+//@unit C14.DistributePositionImpact.execute
+//@ file crates/model/src/action/distribute_position_impact.rs
+//@ within impl<M: PositionImpactMarketMut<DECIMALS>, const DECIMALS: u8> MarketAction
+//@ fn execute
+//@ sig fn execute(mut self) -> crate::Result<Self::Report>
+    fn execute(&mut self) -> (r: Result<DistributePositionImpactReport, E>)
+        ensures
+            // the clock is read and restarted exactly once; the distribution is computed for exactly the seconds it handed out
+            r.is_ok() ==> final(self).market.ticks@ == old(self).market.ticks@.push(r.unwrap().duration_in_seconds),
+            r.is_ok() ==> old(self).market.pool.is_some() && old(self).market.params.is_some() && final(self).market.params == old(self).market.params,
+            r.is_ok() ==> r.unwrap().distribution_amount@ == distributed_spec(old(self).market.pool.unwrap().long@, old(self).market.params.unwrap().min_position_impact_pool_amount@,
+                                                                        old(self).market.params.unwrap().distribute_factor@, r.unwrap().duration_in_seconds as int),
+            // THE POOL SHRINKS BY EXACTLY THE DISTRIBUTED AMOUNT (nothing else of it moves) and ends at the reported next amount
+            r.is_ok() ==> final(self).market.pool.is_some() && final(self).market.pool.unwrap().long@ == old(self).market.pool.unwrap().long@ - r.unwrap().distribution_amount@
+                && final(self).market.pool.unwrap().short == old(self).market.pool.unwrap().short
+                && r.unwrap().next_position_impact_pool_amount@ == final(self).market.pool.unwrap().long@,
+//@body
+}
 } // verus!
